@@ -10,6 +10,8 @@ def parse_reasons(raw):
 
 
 def mut_str(e):
+    if e.get("section"):
+        return "section " + e["section"].replace("=", " ")
     return ", ".join("%s=%s(%s)" % (m["f"], m["c"], m["v"] if m["c"] != "missing" else "line removed")
                      for m in e["mut"]) or "unchanged example"
 
